@@ -22,8 +22,8 @@ claimed = {
   note="tar.xz goes through the system GNU tar; OS scheduling of the concurrent requests is not controlled (only staggering and server delays are drawn); a hostile concurrent filesystem is out of scope.",
   design="§3 C20"),
  "C16": dict(
-  technique="property-based testing (rapid): differential against `go list -e -json` (and `go build` for directives go list drops) on generated package trees",
-  text="rapid generates modules of packages with random directory trees and //go:embed lines; the real LoadDirectives/ResolvePatterns/ParsePatterns are compared with the reference toolchain's view of the same directory: pattern list, embedded file set, bytes, accept/reject. Exploration only; the compiled embed.FS/string/[]byte delivery is covered by the compiled-program part when built.",
+  technique="property-based testing (rapid): differential against `go list -e -json` (and `go build` for directives go list drops) on generated package trees; differential testing of rapid-generated modules with embed variables compiled by llgo against the gc build (bytes, embed.FS behaviour)",
+  text="rapid generates modules of packages with random directory trees and //go:embed lines; the real LoadDirectives/ResolvePatterns/ParsePatterns are compared with the reference toolchain's view of the same directory: pattern list, embedded file set, bytes, accept/reject. A compiled job builds generated modules (string, []byte and embed.FS variables over trees with empty, large and binary files) with the llgo under test and compares every variable's bytes and a full embed.FS walk (ReadDir, ReadFile, Read, Seek, ReadAt, Stat, missing names) with the gc build. Exploration only.",
   note="go list / go build of go1.24 are the reference; errors compared as accept/reject; '//go:embed<TAB>' is not generated because go/build and the gc compiler disagree about it.",
   design="§3 C16"),
  "C07": dict(
